@@ -3,3 +3,4 @@ pub mod build;
 pub mod design;
 pub mod dump;
 pub mod write;
+pub mod write_glyphs;
